@@ -148,11 +148,12 @@ def _work_copy(chunk):
         if res:
             out["nfail"] += 1
             if len(out["failures"]) < 2:
-                def fails(st):
+                def fails(st, clause=res[1]):
                     try:
-                        return check_copy(st) is not None
+                        r = check_copy(st)
+                        return r is not None and r[1] == clause
                     except Exception:
-                        return True
+                        return clause == "copy.parse_raises"
                 small = R.minimise_stmts(stmts, fails, budget=50, line_budget=16)
                 try:
                     res2 = check_copy(small) or res
@@ -215,14 +216,17 @@ def _shape(path):
     return tuple("*" if isinstance(e, int) else ("k", str(e[1])) for e in path)
 
 
+BOTH_ENDS = [False]      # quick tier: first container of every path shape; thorough: first and last
+
+
 def mutations_of(value):
-    """[{"path", "op"}]: on the first and the last container of every path shape (every depth): all ops."""
+    """[{"path", "op"}]: on the first (and, thorough tier, the last) container of every path shape (every depth): all ops."""
     by_shape = {}
     for path, c in _containers(value):
         by_shape.setdefault(_shape(path), []).append((path, c))
     out = []
     for shape, lst in by_shape.items():
-        picks = [lst[0]] + ([lst[-1]] if len(lst) > 1 else [])
+        picks = [lst[0]] + ([lst[-1]] if len(lst) > 1 and BOTH_ENDS[0] else [])
         for path, c in picks:
             if isinstance(c, list):
                 ops = ["append", "clear"] + (["pop", "set_first", "set_last"] if c else [])
@@ -310,7 +314,10 @@ def replay_history(text, include_cc, history):
     """Fresh instance, the given steps, comparison after every step. Returns (step index, diff) or None."""
     s = Session(text, include_cc)
     for i, st in enumerate(history):
-        d = s.step(st)
+        try:
+            d = s.step(st)
+        except Exception as ex:
+            d = f"step raised {type(ex).__name__}: {ex}"
         if d:
             return i, d
     return None
@@ -352,17 +359,33 @@ def _sample_pairs(text):
     return out
 
 
+def _no_session(out, text, cc, ex):
+    """The snapshot of a freshly parsed instance cannot even be taken twice with the same result."""
+    out["evals"] += 1
+    out["nfail"] += 1
+    out["failures"].append(dict(function=P + "parse", clause="query_history_leaves_answers_equal_to_fresh_instance",
+                                what=f"snapshot of a fresh instance failed: {type(ex).__name__}: {ex}",
+                                input={"kind": "history", "text": text, "include_ccdecays": cc, "history": []},
+                                replay={"module": "checks.C08", "function": "replay"}))
+    return out
+
+
 def _work_pairs(task):
     """task = (text, [A query indices]) : all (A, mutation, B) for those A."""
-    text, a_idx, n_prim = task
+    text, a_idx, n_prim, lo, hi = task
     out = dict(evals=0, hashes=[], failures=[], nfail=0, errors=[])
-    sess = Session(text, light=True)
-    qs, bs = query_list(R.snapshot(R.parse_text(text)), n_prim)
+    try:
+        sess = Session(text, light=True)
+        qs, bs = query_list(R.snapshot(R.parse_text(text)), n_prim)
+        if sess.compare():
+            raise RuntimeError("two fresh instances differ: " + sess.compare())
+    except Exception as ex:
+        return _no_session(out, text, True, ex)
     for ai in a_idx:
         name, args, kwargs = qs[ai]
         st, val, _ = R.call_query(R.parse_text(text), name, args, kwargs)
         muts = [None] + (mutations_of(val) if st == "ok" else [])
-        for mut in muts:
+        for mut in muts[lo:hi]:
             a_step = {"q": name, "args": args, "kwargs": kwargs, "mut": mut}
             histories = [[a_step]] + [[a_step, {"q": bn, "args": ba, "kwargs": bk, "mut": None}] for bn, ba, bk in bs]
             for h in histories:
@@ -404,8 +427,13 @@ def random_history(rng, qs, fresh_values, max_len=8):
 def _work_random(task):
     text, cc, seeds = task
     out = dict(evals=0, hashes=[], failures=[], nfail=0, errors=[])
-    sess = Session(text, cc)
-    qs, _ = query_list(sess.fresh)
+    try:
+        sess = Session(text, cc)
+        qs, _ = query_list(sess.fresh)
+        if sess.compare():
+            raise RuntimeError("two fresh instances differ: " + sess.compare())
+    except Exception as ex:
+        return _no_session(out, text, cc, ex)
     ref = R.parse_text(text, cc)
     fresh_values = []
     for name, args, kwargs in qs:
@@ -482,7 +510,14 @@ def replay(input):
     if kind == "reparse":
         d = check_reparse(input["text"], input["plan"])
         return (False, d) if d else (True, "re-parsing gives the same snapshot")
-    r = replay_history(input["text"], input.get("include_ccdecays", True), input["history"])
+    try:
+        s = Session(input["text"], input.get("include_ccdecays", True))
+        d = s.compare()
+        if d:
+            return False, "two fresh instances differ: " + d
+        r = replay_history(input["text"], input.get("include_ccdecays", True), input["history"])
+    except Exception as ex:
+        return False, f"{type(ex).__name__}: {ex}"
     if r:
         return False, f"after step {r[0] + 1} ({input['history'][r[0]]['q']}): {r[1]}"
     return True, "snapshot equals that of a fresh instance after every step"
@@ -507,19 +542,21 @@ def _collect(res):
 
 def run(tier="quick", seed=0):
     t0 = time.time()
+    seed = seed if tier == "thorough" else 0      # VERIF_SEED only matters in the thorough tier (README)
     rng = random.Random(seed)
     bounded = []
+    BOTH_ENDS[0] = tier == "thorough"
 
     # ---- copy
     t1 = time.time()
     cases = [R.flatten(R.scenario(**f)) for f in R.all_scenarios() if f["copy_src"] != "none"
-             and (tier == "thorough" or f["fillers"] != 1)]
+             and (tier == "thorough" or (f["fillers"] != 1 and f["kpair"] != "rev"))]
     cases += copy_variants()
     ev, dn, fl, nf, er = _collect(R.pmap(_work_copy, R.chunks(cases, 6), chunksize=1))
     bounded.append(dict(
         name="C08.copy", function=P + "_add_decays_to_be_copied",
         bound=f"{len(cases)} files: every lattice file with a CopyDecay (copy used as CDecay source, both ChargeConj orientations, "
-              "1..15 tables of 1..7 lines" + ("" if tier == "thorough" else ", filler levels 0 and 2") + ") + 14 variants (three copies of one "
+              "1..15 tables of 1..7 lines" + ("" if tier == "thorough" else ", filler levels 0 and 2, daughter-alias pair fwd / absent") + ") + 14 variants (three copies of one "
               "source, copy before its source, copies of alias / self-conjugate mothers, CopyDecay of a missing table)",
         evaluations=ev, distinct_nontrivial=dn,
         rule="one evaluation = one file: rows(NEW)==rows(OLD) for every CopyDecay, all tables == stated tables, all non-copied "
@@ -534,15 +571,19 @@ def run(tier="quick", seed=0):
     tasks = []
     n_prim = 2 if tier == "quick" else 4
     for text in texts:
-        qs, bs = query_list(R.snapshot(R.parse_text(text)), n_prim)
-        tasks += [(text, [i], n_prim) for i in range(len(qs))]
+        ref = R.parse_text(text)
+        qs, bs = query_list(R.snapshot(ref), n_prim)
+        for i, (name, args, kwargs) in enumerate(qs):
+            st, val, _ = R.call_query(ref, name, args, kwargs)
+            n_mut = 1 + (len(mutations_of(val)) if st == "ok" else 0)
+            tasks += [(text, [i], n_prim, lo, lo + 8) for lo in range(0, n_mut, 8)]
     rng.shuffle(tasks)
     ev, dn, fl, nf, er = _collect(R.pmap(_work_pairs, tasks, chunksize=1))
     bounded.append(dict(
         name="C08.histories.pairs", function=P + "build_decay_chains",
         bound=f"{len(texts)} generated file(s) (7 tables incl. CopyDecay, CDecay, ModelAlias with Define'd parameter, every other "
               f"statement kind): A over {len(qs)} query calls (all public queries, {n_prim} mothers, argument variants, failing calls), "
-              f"every mutation (5 list ops / 5 dict ops on the first and last container of every path shape at every depth, or none), "
+              f"every mutation (5 list ops / 5 dict ops on the first{' and last' if tier == 'thorough' else ''} container of every path shape at every depth, or none), "
               f"B over {len(bs)} query calls (every public query once) or no B",
         evaluations=ev, distinct_nontrivial=dn,
         rule="one evaluation = one history (A, mutation of A's result, [B]) run on the shared instance followed by the full "
@@ -573,13 +614,13 @@ def run(tier="quick", seed=0):
 
     # ---- reparse
     t1 = time.time()
-    scen = [f for i, f in enumerate(R.all_scenarios()) if i % (9 if tier == "quick" else 2) == 0]
+    scen = [f for i, f in enumerate(R.all_scenarios()) if i % (12 if tier == "quick" else 2) == 0]
     cases = [(R.render(R.flatten(R.scenario(**f))), PLANS[i % len(PLANS)]) for i, f in enumerate(scen)]
     cases += [(_text(f), pl) for f in TEXT_FLAGS for pl in PLANS]
     ev, dn, fl, nf, er = _collect(R.pmap(_work_reparse, R.chunks(cases, 3), chunksize=1))
     bounded.append(dict(
         name="C08.reparse", function=P + "parse",
-        bound=f"{len(cases)} (file, plan) pairs: every {9 if tier == 'quick' else 2}th lattice file with one of the plans "
+        bound=f"{len(cases)} (file, plan) pairs: every {12 if tier == 'quick' else 2}th lattice file with one of the plans "
               f"{PLANS} (values of include_ccdecays for successive parse() calls on one instance) and the 5 history files with every plan",
         evaluations=ev, distinct_nontrivial=dn,
         rule="one evaluation = one plan: after each parse() call the full snapshot is compared with a fresh instance parsed once "
